@@ -633,19 +633,35 @@ func (e *c15Env) scenario(b *c15Built, store metadata.Store) (map[string]any, er
 		return nil, err
 	}
 	defer mr.Close()
+	// ids are private to a metadata reader: find the files of this second reader by name
+	ids := make([]uint32, len(e.files))
 	idx := map[uint32]int{}
 	for i, f := range e.files {
-		idx[f.id] = i
+		id := mr.RootID()
+		for _, c := range strings.Split(f.name, "/") {
+			cid, _, err := mr.GetChild(id, c)
+			if err != nil {
+				return nil, fmt.Errorf("lookup %q: %w", f.name, err)
+			}
+			id = cid
+		}
+		ids[i] = id
+		idx[id] = i
 	}
-	span, pre, off := [][]int{}, [][]int{}, []int64{}
+	span, pre, prf, off := [][]int{}, [][]int{}, [][]int{}, []int64{}
 	for i, f := range e.files {
 		mu.Lock()
 		touched = map[int]bool{}
 		mu.Unlock()
 		pres := map[int]bool{}
-		fr, err := mr.OpenFileWithPreReader(f.id, func(nid uint32, co, cs int64, dg string, r io.Reader) error {
+		seenChunks := map[int]map[int64]bool{}
+		fr, err := mr.OpenFileWithPreReader(ids[i], func(nid uint32, co, cs int64, dg string, r io.Reader) error {
 			if j, ok := idx[nid]; ok && j != i {
 				pres[j+1] = true
+				if seenChunks[j+1] == nil {
+					seenChunks[j+1] = map[int64]bool{}
+				}
+				seenChunks[j+1][co] = true
 			}
 			_, err := io.Copy(io.Discard, r)
 			return err
@@ -658,7 +674,7 @@ func (e *c15Env) scenario(b *c15Built, store metadata.Store) (map[string]any, er
 				return nil, err
 			}
 		}
-		fr2, err := mr.OpenFile(f.id)
+		fr2, err := mr.OpenFile(ids[i])
 		if err != nil {
 			return nil, err
 		}
@@ -671,7 +687,15 @@ func (e *c15Env) scenario(b *c15Built, store metadata.Store) (map[string]any, er
 		mu.Lock()
 		span = append(span, c15Sorted(touched))
 		mu.Unlock()
+		full := map[int]bool{}
+		for j, cs := range seenChunks {
+			if len(cs) == len(e.files[j-1].chunks) {
+				full[j] = true
+				delete(pres, j)
+			}
+		}
 		pre = append(pre, c15Sorted(pres))
+		prf = append(prf, c15Sorted(full))
 		off = append(off, f.off)
 	}
 	prio := []int{}
@@ -684,13 +708,17 @@ func (e *c15Env) scenario(b *c15Built, store metadata.Store) (map[string]any, er
 			}
 		}
 	}
+	rd := []int{}
+	for i := range e.files {
+		rd = append(rd, i+1)
+	}
 	tmo := e.sc.TmoMs
 	if tmo == 0 {
 		tmo = 1000
 	}
-	return map[string]any{"id": e.sc.ID + "/" + e.store, "nf": len(e.files), "names": names, "off": off, "span": span, "pre": pre, "prio": prio,
+	return map[string]any{"id": e.sc.ID + "/" + e.store, "nf": len(e.files), "names": names, "off": off, "span": span, "pre": pre, "prf": prf, "prio": prio,
 		"lm": e.lm, "loff": e.loff, "size": len(b.blob), "cs": e.sc.CS, "cfg": e.sc.Cfg, "thr": e.sc.Thr, "f0": e.f0,
-		"np": e.sc.NP, "nw": e.sc.NW, "nb": e.sc.NB, "tmo": tmo, "haslst": e.fsdir != ""}, nil
+		"np": e.sc.NP, "nw": e.sc.NW, "nb": e.sc.NB, "tmo": tmo, "rd": rd, "haslst": e.fsdir != ""}, nil
 }
 
 // ---------------------------------------------------------------------------------------------- replay of walks
@@ -826,7 +854,7 @@ func (e *c15Env) step(s c15Step) (evs []map[string]any, applied bool) {
 			// nothing had to be requested: the call went through
 			e.reg.setMode("pass")
 			e.pfGate = e.nextGate("layer.prefetch.fetched", c15Long)
-			ev["ev"], ev["r"] = "BlobCache", "ok"
+			ev["ev"], ev["r"], ev["want"] = "BlobCache", "ok", "ok"
 			break
 		}
 		e.pfStall = true
@@ -845,7 +873,7 @@ func (e *c15Env) step(s c15Step) (evs []map[string]any, applied bool) {
 		}
 		e.pfGate = e.nextGate("layer.prefetch.fetched", c15Long)
 		e.reg.setMode("pass")
-		ev["r"] = "hung"
+		ev["r"], ev["want"] = "hung", r
 		if e.pfGate != nil {
 			err, _ := e.pfGate.kv[1].(error)
 			ev["r"] = c15Res(err)
@@ -862,7 +890,7 @@ func (e *c15Env) step(s c15Step) (evs []map[string]any, applied bool) {
 		close(e.pfGate.rel)
 		e.pfGate = e.nextGate("layer.prefetch.cached", c15Long)
 		e.reg.setMode("pass")
-		ev["r"] = "hung"
+		ev["r"], ev["want"] = "hung", r
 		if e.pfGate != nil {
 			err, _ := e.pfGate.kv[1].(error)
 			ev["r"] = c15Res(err)
@@ -1029,6 +1057,7 @@ func (e *c15Env) step(s c15Step) (evs []map[string]any, applied bool) {
 
 func (e *c15Env) bgFinish(ev map[string]any, mode string) ([]map[string]any, bool) {
 	ev["ev"], ev["r"], ev["b"] = "BgFinish", "hung", e.brunner
+	ev["want"] = map[string]string{"pass": "ok", "fail": "fail"}[mode]
 	select {
 	case err := <-e.bret[e.brunner]:
 		ev["r"] = c15Res(err)
@@ -1172,9 +1201,9 @@ func c15Free(sc *c15Scen, b *c15Built, store metadata.Store, storeName string, i
 		err := e.l.WaitForPrefetchCompletion()
 		ms := time.Since(t0).Milliseconds()
 		if err == nil {
-			rec.add(map[string]any{"ev": "WaitReturn", "w": i + 1, "res": "ok", "ms": ms, "req": []int{}})
+			rec.add(map[string]any{"ev": "WaitReturn", "w": i + 1, "res": "ok", "ms": ms, "req": []int{}, "obs": e.obs()})
 		} else {
-			rec.add(map[string]any{"ev": "WaitTimeout", "w": i + 1, "res": "timeout", "ms": ms, "req": []int{}})
+			rec.add(map[string]any{"ev": "WaitTimeout", "w": i + 1, "res": "timeout", "ms": ms, "req": []int{}, "obs": e.obs()})
 		}
 	}
 	// phase 1: prefetch and waiters (variant 1: background fetch races with them, as in fs.prefetch)
@@ -1193,8 +1222,15 @@ func c15Free(sc *c15Scen, b *c15Built, store metadata.Store, storeName string, i
 	if pres[0] != nil || pres[1] != nil {
 		res = "fail"
 	}
-	e.reg.take()
-	rec.add(map[string]any{"ev": "PrefetchEnd", "p": 1, "res": res, "req": []int{}, "obs": e.obs()})
+	preq := e.reg.take()
+	if variant == 1 {
+		preq = []int{} // background fetch ran at the same time: its requests cannot be told apart
+	}
+	want := "ok"
+	if variant == 2 {
+		want = "any"
+	}
+	rec.add(map[string]any{"ev": "PrefetchEnd", "p": 1, "res": res, "want": want, "req": preq, "obs": e.obs()})
 	if variant != 1 {
 		// the reads the first part of the property speaks about
 		for i := range e.files {
@@ -1236,7 +1272,7 @@ func c15Free(sc *c15Scen, b *c15Built, store metadata.Store, storeName string, i
 		}
 	}
 	e.reg.take()
-	rec.add(map[string]any{"ev": "BgFinish", "b": 1, "r": bg, "req": []int{}, "obs": e.obs()})
+	rec.add(map[string]any{"ev": "BgFinish", "b": 1, "r": bg, "want": want, "req": []int{}, "obs": e.obs()})
 	e.reg.mu.Lock()
 	e.reg.off = true
 	e.reg.mu.Unlock()
